@@ -17,7 +17,7 @@ RULE = (
     "separated and terminated by 1..3 flags; 30% of the frames sit on boundary values (HCS/FCS 0000, FFFF, ending in 7D, containing 7E, running FCS register 0000 mid-frame, near-maximum flag/escape-dense); every 20th stream holds 60..700 frames (up to ~90 KB, also fed as one tiny call followed by one huge call); splittings include cuts near 2047/2048/8191/8192 multiples and right after every n-th flag; stuffed on the wire for stuffing readers; for non-stuffing readers frames are redrawn until "
     "they are inside the property's domain (no flag in header octets; with abort detection no 7D directly before a flag or the frame end). "
     "Each stream runs under several splittings. evaluations = executions; distinct non-trivial = distinct (configuration, stream) digests "
-    "(every stream contains >= 1 frame); a small shard runs ALL 2^(L-1) splittings of short streams."
+    "(every stream contains >= 1 frame); a small shard runs ALL 2^(L-1) splittings of short streams; twin executions feed two reader objects alternately with adversarial call boundaries (calls ending right after an escape octet / starting with a flag)."
 )
 ASSUMPTIONS = [
     "frames are built by vf/ref/hdlc_ref.build (independent of the code under test)",
@@ -105,6 +105,47 @@ def compare(cfg, stream, spec, sent, ctx) -> None:
             ctx.count("header_only_frames")
 
 
+def twin(rng, ctx) -> None:
+    """Two reader objects on two clean streams, fed alternately with adversarial call boundaries (one reader's calls end right
+    after an escape octet, the other's start with a flag): each must still deliver exactly its own frames."""
+    cfgs = [hdlc_gen.CONFIGS[rng.randrange(4)], (rng.random() < 0.5, True)]
+    made = [make_stream(rng, c, None, max_frames=6) for c in cfgs]
+    streams = [m[0] for m in made]
+    styles = []
+    chunk_lists = []
+    for k, st in enumerate(streams):
+        style = rng.choice(("after_7d", "before_flag", "after_flag", "random"))
+        styles.append(style)
+        if style == "after_7d" and b"\x7d" in st:
+            spec = splits.aligned_spec(st, 0x7D, 1, 1)
+        elif style == "before_flag":
+            spec = splits.aligned_spec(st, 0x7E, 1, 0)
+        elif style == "after_flag":
+            spec = splits.aligned_spec(st, 0x7E, 1, 1)
+        else:
+            spec = splits.random_spec(rng, len(st))
+        chunk_lists.append(splits.chunks(st, spec))
+    readers = [hdlc_mon.new_reader(c) for c in cfgs]
+    got = [[], []]
+    idx = [0, 0]
+    k = 0
+    order = []
+    while idx[0] < len(chunk_lists[0]) or idx[1] < len(chunk_lists[1]):
+        if idx[k] >= len(chunk_lists[k]):
+            k = 1 - k
+        order.append(k)
+        for f in readers[k].read(chunk_lists[k][idx[k]]):
+            got[k].append((bytes(f.as_bytes), f.is_valid))
+        idx[k] += 1
+        k = 1 - k if rng.random() < 0.85 else k
+    ctx.count("twin_executions")
+    for j in range(2):
+        want = [(fr, True) for fr, _d in made[j][1]]
+        if got[j] != want:
+            ctx.violation("C02:instances-share-state", f"reader {j} (cfg {cfgs[j]}, calls cut {styles[j]}): {len(want)} frames sent, {sum(1 for g in got[j] if g[1])} delivered valid when another reader object ({styles[1 - j]}) is used in between",
+                          {"twin": True, "cfgs": [list(c) for c in cfgs], "chunks": [list(c) for c in chunk_lists], "order": order, "sent": [[fr for fr, _ in m[1]] for m in made]})
+
+
 def run(shard: dict, ctx) -> None:
     rng = ctx.rng("c02", shard["kind"])
     if shard["kind"] == "allsplits":
@@ -137,12 +178,27 @@ def run(shard: dict, ctx) -> None:
             compare(cfg, stream, spec, sent, ctx)
         ctx.case(bytes(cfg) + stream, True, len(specs))
         ctx.count(f"streams_cfg{int(cfg[0])}{int(cfg[1])}")
+        for _ in range(3):
+            twin(rng, ctx)
         if i < 2:
             ctx.sample({"cfg": list(cfg), "stream_len": len(stream), "frames": [f.hex()[:60] for f, _ in sent]})
 
 
 def replay(case: dict, ctx) -> None:
     from vf.ref import hdlc_ref
+
+    if case.get("twin"):
+        readers = [hdlc_mon.new_reader(tuple(c)) for c in case["cfgs"]]
+        got = [[], []]
+        idx = [0, 0]
+        for k in case["order"]:
+            for f in readers[k].read(case["chunks"][k][idx[k]]):
+                got[k].append((bytes(f.as_bytes), f.is_valid))
+            idx[k] += 1
+        for j in range(2):
+            if got[j] != [(fr, True) for fr in case["sent"][j]]:
+                ctx.violation("C02:instances-share-state", f"reader {j} differs when interleaved", case)
+        return
 
     sent = []
     for fr in case["sent"]:
